@@ -59,16 +59,50 @@ func denomLinkRule(p *Prog, r *Report, rule string, mods map[string]bool, floor 
 			construct := fmt.Sprintf("%s msg.%s.Denom ~ %s", fname(fn), cf, recKind)
 			r.Instance(rule)
 			r.FuncsSeen[fname(fn)] = true
-			isMsgDenom := func(v ssa.Value) bool {
+			isMsgCoinField := func(v ssa.Value, tail []string) bool {
 				os := p.Origins(v)
 				if len(os) == 0 {
 					return false
 				}
 				for _, o := range os {
-					if o.Kind != "param" || len(o.Path) != 2 || o.Path[0] != cf || o.Path[1] != "Denom" {
+					if o.Kind != "param" || len(o.Path) != 1+len(tail) || o.Path[0] != cf {
 						return false
 					}
+					for k, seg := range tail {
+						if o.Path[1+k] != seg {
+							return false
+						}
+					}
 					if nt := namedOf(o.Val.Type()); nt == nil || nt.Obj() != mt.Obj() {
+						return false
+					}
+				}
+				return true
+			}
+			isMsgDenom := func(v ssa.Value) bool {
+				if isMsgCoinField(v, []string{"Denom"}) {
+					return true
+				}
+				// inside a shared validation helper the coin is a parameter: the call site in the
+				// validator of this message type passes msg.<Coin>
+				os := p.Origins(v)
+				if len(os) == 0 {
+					return false
+				}
+				for _, o := range os {
+					pr, isP := o.Val.(*ssa.Parameter)
+					if o.Kind != "param" || !isP || len(o.Path) != 1 || o.Path[0] != "Denom" || pr.Parent() == nil {
+						return false
+					}
+					idx := paramIndex(pr)
+					hit := false
+					for _, cs := range p.CallSitesOf(pr.Parent()) {
+						args := cs.Common().Args
+						if idx >= 0 && idx < len(args) && isMsgCoinField(args[idx], nil) {
+							hit = true
+						}
+					}
+					if !hit {
 						return false
 					}
 				}
